@@ -31,6 +31,25 @@ func galoisModel(nth uint64, k int) uint64 {
 	return r
 }
 
+// traceModel: Galois elements of the trace onto the subring of degree 2^ln: the powers 5^(2^i) that
+// generate the subgroup <5^(2^ln)>, i.e. i below log2 of the order of 5 (N/2 modulo 2N in the
+// standard ring, N modulo 4N in the conjugate-invariant ring, see core/rlwe/inner_sum.go), plus the
+// conjugation X -> X^-1 for the full trace of the standard ring.
+func traceModel(l lit, ln int) (want []uint64) {
+	nth := l.nthRoot()
+	last := l.LogN - 1
+	if l.Ring == 1 {
+		last = l.LogN
+	}
+	for i := ln; i < last; i++ {
+		want = append(want, galoisModel(nth, 1<<i))
+	}
+	if ln == 0 && l.Ring == 0 {
+		want = append(want, nth-1)
+	}
+	return
+}
+
 func sortedU(v []uint64) []uint64 {
 	o := append([]uint64{}, v...)
 	sort.Slice(o, func(i, j int) bool { return o[i] < o[j] })
@@ -232,13 +251,7 @@ func derivedRLWE(c *eng.Ctx, l lit, p rlwe.Parameters, r *eng.Rand) {
 		if ln == 0 && l.Ring == 1 {
 			continue // documented panic
 		}
-		var want []uint64
-		for i := ln; i < l.LogN-1; i++ {
-			want = append(want, galoisModel(nth, 1<<i))
-		}
-		if ln == 0 {
-			want = append(want, nth-1)
-		}
+		want := traceModel(l, ln)
 		got := rlwe.GaloisElementsForTrace(p, ln)
 		chk(eqv(sortedU(got), sortedU(want)), "GaloisElementsForTrace", func() string { return fmt.Sprintf("(%d)=%v want %v", ln, got, want) })
 	}
